@@ -6,6 +6,8 @@ echo "== repo commits to pick"
 git -C /repo fetch -q "$W/repo" HEAD
 # only commits whose patch is not in /repo yet (git cherry marks equivalents with '-')
 for c in $(git -C /repo cherry HEAD FETCH_HEAD | grep '^+' | cut -d' ' -f2); do
+  # already picked earlier (possibly with a conflict resolution that changed the patch id)?
+  if git -C /repo log --format=%B | grep -q "cherry picked from commit $c"; then continue; fi
   git -C /repo log -1 --format='%h %s' "$c"
   git -C /repo cherry-pick -x "$c" >/dev/null || { echo "CONFLICT on $c"; exit 1; }
 done
